@@ -204,6 +204,10 @@ def check(prog, run):
     run.ob("R-types", ci.qual, "frequency list and partner lists are list-valued", {MAIN, "pole_ind", "freq_ind"} <= listattrs,
            f"{sorted(listattrs)}", witness=str(sorted(listattrs)), file=f, node=ci.node)
     pick(prog, run, ci, f)
+    # "the modes extracted afterwards are those poles": per-mode order lists are resolved to the nearest retained pole (rules of C11)
+    from . import C11
+    C11.declare_extraction_rules(run, first_order=False, handover_min=10)
+    C11.extraction(prog, run, first_order=False, with_handover=True, only_methods=("mpe_from_plot",))
     handover(prog, run, ci, f)
 
 
